@@ -83,6 +83,35 @@ def _standin(rep, tier, seed, only_search=False):
                     return
         if len(samples) < 2:
             samples.append({"config": cfg, "F": F, "G": G})
+    # several imagers in one process whose pixel grids share origin and resolution but not the pixel size (scaled copies of one
+    # configuration): every one of them images on its own grid - serial, parallel and additive all the same
+    for it in range(6 if tier == "quick" else 120):
+        cfg = ic.rand_cfg(rng)
+        for c in (1.0, 2.0, 0.5):
+            sc = dict(cfg)
+            b0 = cfg["birth_range"][0]
+            sc["birth_range"] = (b0, b0 + c * (cfg["birth_range"][1] - b0))
+            sc["pers_range"] = (0.0, c * cfg["pers_range"][1])
+            sc["pixel_size"] = c * cfg["pixel_size"]
+            pi = ic.make_imager(sc)
+            F = ic.rand_dgm(rng, 3, sc, outside=False)
+            I1 = ic.transform(pi, F)
+            tol = ic.pixel_tol(F, sc) * 4
+            P2 = pi.transform([np.array(F), np.array(F)], n_jobs=2)
+            parts = ic.transform(pi, F[:1]) + ic.transform(pi, F[1:])
+            want = ic.oracle_image(F, True, sc["birth_range"], sc["pers_range"], sc["pixel_size"], sc["weight"], sc["weight_params"], sc["kernel"], sc["kernel_params"], pi._bpnts, pi._ppnts)
+            if I1.shape != want.shape or float(np.max(np.abs(I1 - want))) > ic.pixel_tol(F, sc):
+                viol("call-history-independence", sc, {"F": F, "scale": c}, "the %r-scaled copy of a configuration imaged earlier in the same process gives pixels that differ from the weighted kernel mass on ITS grid by %r (kernel %s)"
+                     % (c, float(np.max(np.abs(I1 - want))) if I1.shape == want.shape else "shape", cfg["kclass"]))
+                if only_search:
+                    return
+            evals += 2
+            distinct.add(("scaled-config", cfg["kclass"], c))
+            for name, ok, payload in (("serial-vs-parallel", np.max(np.abs(P2[0] - I1)) <= tol, {"F": F, "n_jobs": 2, "scale": c}), ("additive", np.max(np.abs(parts - I1)) <= tol, {"F": F, "scale": c})):
+                if not bool(ok):
+                    viol(name, sc, payload, "image law '%s' fails for the %r-scaled copy of a configuration imaged earlier in the same process (kernel %s): %s" % (name, c, cfg["kclass"], payload))
+                    if only_search:
+                        return
     if not only_search:
         rep.bounded("image-laws", "%d random imagers x diagrams; n_jobs in %s" % (n, jobs), evals, len(distinct),
                     "distinct = (law, kernel class, weight); additivity, order, zero weight, empty, single/collection, serial/parallel (skew both ways), skew equivalence, non-negativity, total <= total weight",
